@@ -27,7 +27,9 @@ MANIFEST = {
              "configuration inside the bounds: file start height, length, write batch size, heights of the two target "
              "stores (equal / block store ahead / filter store ahead), the height at which the file leaves the stored or "
              "the valid chain and how (other valid branch, bad proof of work, bad difficulty bits, old timestamp, "
-             "non-connecting header, a single differing filter header), file-level damage (wrong network magic in one or "
+             "non-connecting header, the filter file alone differing from a height on - every position incl. exactly the tip), "
+             "a hard-coded filter-header checkpoint at any height of the file, an already cancelled context, "
+             "file-level damage (wrong network magic in one or "
              "both files, truncated mid-header, no headers, fewer filter headers, different start heights), and an injected "
              "error or a crash before/after every store call of writeHeadersToTargetStores. EVERY path of that graph is "
              "replayed against the real code: real headerfs stores on disk, real files written with "
@@ -42,7 +44,8 @@ MANIFEST = {
              "unreachable with real headerfs stores (the continuity check compares the connecting header with the block TIP) "
              "and is therefore modelled but never replayed. Also carries the import crash points of C08 as clauses "
              "ImportCrash* (crash before / after / inside every store call of the import: torn file write, between file and "
-             "index step), reported under C14. Store read errors, the HTTP source and ctx cancellation are not covered.",
+             "index step), reported under C14. Store read errors, the HTTP source and cancellation in the middle of an import "
+             "are not covered.",
         design="4 C14", technique="TLA+ spec + TLC exhaustive + spec-to-code replay of every path + TLC-judged observed traces"),
 }
 
